@@ -2460,7 +2460,8 @@ func WithUser(user string) Option {
 }
 
 func acceptable(err error) bool {
-	return err == nil || errorx.In(err, red.Nil, context.Canceled)
+	// a NOSCRIPT reply comes from a healthy server, the script is then sent with EVAL
+	return err == nil || errorx.In(err, red.Nil, context.Canceled) || red.HasErrorPrefix(err, "NOSCRIPT")
 }
 
 func getRedis(r *Redis) (RedisNode, error) {
